@@ -9,6 +9,7 @@ import impl_hist  # noqa: F401
 from framework import Case, Finding
 
 PROP = "C09"
+GENERATED = ['SharedState']  # generated files this check's tie depends on
 LEAN_MODULES = ["Properties.C09"]
 RULE = (
     "corpus (F8, F9 witnesses) first; seeded histories (length 12 quick / 40 thorough) over a family of <=6 functions sharing 2-3 annotation "
@@ -43,6 +44,64 @@ def judge(case, impl_out, spec):
 
 def nontrivial(case, impl_out):
     return impl_out.count("calls=") >= 2
+
+
+def search(run, tier):
+    """The tie broke (the shared-state audit or the correspondence).  For every history on which code and model
+    disagree, replay each disagreeing call ALONE (same aliases, providers, provider updates and decorations, no
+    other calls): if the code's verdict for the very same call differs from the one it gave inside the history, the
+    verdict depends on the history — a concrete failing input for C09."""
+    import impl
+
+    cands = [f for f in run.findings if f.kind == "broken-correspondence" and f.case is not None and f.case.line.startswith("HIST")]
+    found = 0
+    for f in cands[:60]:
+        steps = f.case.line.split("\t")[1:]
+        io, mo = f.impl.split(" ## "), f.model.split(" ## ")
+        out_steps = [i for i, s in enumerate(steps) if s.startswith("C|") or s.startswith("D|")]
+        # map output parts to steps: D steps produce output only on decoration errors; recompute by replaying prefixes is costly,
+        # so align through the C steps only when no decoration failed
+        c_idx = [i for i, s in enumerate(steps) if s.startswith("C|")]
+        if len(io) != len(c_idx) + 1 or len(mo) != len(io):
+            continue
+        for k, si in enumerate(c_idx):
+            if io[k] == mo[k] or mo[k].endswith("unmodelled"):
+                continue
+            alone = [s for j, s in enumerate(steps) if not s.startswith("C|") or j == si]
+            # provider updates after the call are irrelevant, keep only what precedes it
+            alone = [s for j, s in enumerate(steps) if (j <= si) and (not s.startswith("C|") or j == si)]
+            fresh = impl.handle("HIST\t" + "\t".join(alone)).split(" ## ")
+            if len(fresh) >= 2 and fresh[0] != io[k]:
+                from framework import Case, Finding
+
+                run.findings.append(Finding("failing-input",
+                    f"the verdict of a call depends on the calls made before it: inside the history {io[k]!r}, the same call alone (same decorations, same provider values) {fresh[0]!r}",
+                    Case(f.case.line, "history-dependence", {}), f.impl, f.model, "alone: " + "HIST\t" + "\t".join(alone)))
+                found += 1
+                break
+            # nesting: the same call with every body made non-nesting; if the nested function alone accepts the
+            # arguments, nesting / recursion must not change the outer verdict
+            fid = steps[si].split("|")[1]
+            dstep = next((s for s in steps[:si][::-1] if s.startswith(f"D|{fid}|")), None)
+            if dstep is not None and dstep.split("|")[5] != "-":
+                g = dstep.split("|")[5]
+                flat = ["|".join(s.split("|")[:5] + ["-"]) if s.startswith("D|") else s for s in alone]
+                v_f = impl.handle("HIST\t" + "\t".join(flat)).split(" ## ")
+                callg = steps[si].split("|")
+                callg[1] = g
+                flat_g = flat[:-1] + ["|".join(callg)]
+                v_g = impl.handle("HIST\t" + "\t".join(flat_g)).split(" ## ")
+                if v_g and v_g[0] == "calls=1 ok" and v_f and v_f[0] != io[k]:
+                    from framework import Case, Finding
+
+                    run.findings.append(Finding("failing-input",
+                        f"the verdict of a call depends on the nesting of checked calls: with the nested call {io[k]!r}, without it {v_f[0]!r} although the nested function alone accepts the same arguments",
+                        Case(f.case.line, "nesting-dependence", {}), f.impl, f.model, "flat: " + "HIST\t" + "\t".join(flat)))
+                    found += 1
+                    break
+        if found >= 3:
+            break
+    run.coverage["history_dependence_found"] = found
 
 
 def custom(run, tier):
